@@ -21,7 +21,7 @@ from concurrent.futures import ThreadPoolExecutor
 
 VERIF = os.path.dirname(os.path.dirname(os.path.abspath(__file__)))
 REPO = os.environ.get("VERIF_REPO", "/repo")
-CACHE = os.path.join(VERIF, ".cache")
+CACHE = os.environ.get("VERIF_CACHE", os.path.join(VERIF, ".cache"))
 EXTRACT = os.path.join(VERIF, "bin", "gmlc-extract")
 EXTRACT_SRC = os.path.join(VERIF, "extractor", "gmlc_extract.cc")
 
@@ -109,6 +109,11 @@ def extract_units(tier, log):
         d = os.path.join(CACHE, "facts", key)
         path = os.path.join(d, name + ".json")
         out.append((name, path, src))
+        if os.path.isdir(d):
+            try:
+                os.utime(d, None)
+            except OSError:
+                pass
         if not os.path.exists(path):
             jobs.append((name, src, flags, roots, d, path))
 
@@ -138,15 +143,24 @@ def extract_units(tier, log):
     return out
 
 
-def _prune_cache(keep, limit=6):
+def _prune_cache(keep, limit=10, min_age_s=1800):
+    """drop old fact directories; never one that another (concurrent) run may still be reading"""
     root = os.path.join(CACHE, "facts")
     if not os.path.isdir(root):
         return
+    now = time.time()
     ds = [os.path.join(root, d) for d in os.listdir(root)]
     ds = [d for d in ds if d not in keep]
-    ds.sort(key=lambda d: os.path.getmtime(d))
+    try:
+        ds.sort(key=lambda d: os.path.getmtime(d))
+    except OSError:
+        return
     for d in ds[:-limit] if len(ds) > limit else []:
-        shutil.rmtree(d, ignore_errors=True)
+        try:
+            if now - os.path.getmtime(d) > min_age_s:
+                shutil.rmtree(d, ignore_errors=True)
+        except OSError:
+            pass
 
 
 # ------------------------------------------------------------- obligations
@@ -415,6 +429,11 @@ def main(argv=None):
         return run_property(prop, a.tier)
     except Broken as e:
         print("ANALYSIS-BROKEN property=%s: %s" % (prop, e))
+        return 2
+    except Exception as e:      # an internal error is never a verdict
+        import traceback
+        traceback.print_exc()
+        print("ANALYSIS-BROKEN property=%s: internal error in the checker: %r" % (prop, e))
         return 2
 
 
